@@ -9,6 +9,7 @@ open Vgi Vgi.HttpStream Vgi.Generated.C16 Vgi.Drive.StreamIO
 
 structure St where
   cfg : Option Cfg := none
+  hdr : Bool := false            -- the static methods are registered with a header type
   w : World := World.empty
 
 def defaultCfg : Cfg := { cacheOn := true, maxResp := 0, maxExt := 0, extOn := false, batchLimit := 0 }
@@ -24,7 +25,7 @@ def parseCfg (ws : List String) : Option Cfg :=
           else if k = "maxresp" then some { c with maxResp := n }
           else if k = "maxext" then some { c with maxExt := n }
           else if k = "limit" then some { c with batchLimit := n }
-          else if k = "inst" then some c
+          else if k = "inst" || k = "hdr" then some c
           else none
         | none => none
       | _ => none) (some defaultCfg)
@@ -34,26 +35,35 @@ def step (st : St) (ws : List String) : St × String :=
   match ws with
   | "cfg" :: rest =>
     match st.cfg, parseCfg rest with
-    | none, some c => ({ st with cfg := some c }, "ok")
+    | none, some c => ({ st with cfg := some c, hdr := rest.contains "hdr=1" }, "ok")
     | _, _ => (st, "bad-op")
-  | ["init", inst, kind, cancel, prog] =>
-    match inst.toNat?, parseKind kind, parseCancel cancel, parseProg prog with
-    | some i, some pr, some ca, some p =>
-      let rq : InitReq := { inst := i, st := { prog := p, pos := 0, producer := pr, cancel := ca } }
+  | "init" :: inst :: kind :: cancel :: prog :: rest =>
+    let hdr? : Option (Option Nat) := match rest with
+      | [] => some none
+      | [h] => (parseHeaderWord h).map some
+      | _ => none
+    match inst.toNat?, parseInitKind kind, parseCancel cancel, parseProg prog, hdr? with
+    | some i, some (dyn, pr), some ca, some p, some hdr =>
+      let rq : InitReq := { inst := i, st := { prog := p, pos := 0, producer := pr, cancel := ca },
+                            dynamic := dyn, hasHeader := dyn || st.hdr, header := hdr }
       let (resp, w', evs) := handleInit cfg st.w rq
-      ({ cfg := some cfg, w := w' }, showResp w' resp evs false)
-    | _, _, _, _ => (st, "bad-op")
+      ({ st with cfg := some cfg, w := w' }, showResp w' resp evs false)
+    | _, _, _, _, _ => (st, "bad-op")
   | "x" :: inst :: route :: schema :: vals :: rest =>
-    match rest.getLast?, inst.toNat?, parseKind route, schemaOk? schema, parseVals vals with
-    | some last, some i, some pr, some sok, some vs =>
+    match rest.getLast?, inst.toNat?, schemaOk? schema, parseVals vals with
+    | some last, some i, some sok, some vs =>
       match parseKV "wire" last, parseMetaWords st.w rest.dropLast with
       | some wire, some md =>
-        let req : Req := { inst := i, routeProducer := pr, md := md, vals := if schema = "empty" then [] else vs,
-                           schemaOk := sok, env := { wire := wire } }
-        let (resp, w', evs) := handleExchange cfg st.w req
-        ({ cfg := some cfg, w := w' }, showResp w' resp evs true)
+        match routeOf st.w md route with
+        | some (dyn, pr) =>
+          let req : Req := { inst := i, routeProducer := pr, dynamic := dyn, md := md,
+                             vals := if schema = "empty" then [] else vs,
+                             schemaOk := sok, exact := schema = "ok", env := { wire := wire } }
+          let (resp, w', evs) := handleExchange cfg st.w req
+          ({ st with cfg := some cfg, w := w' }, showResp w' resp evs true)
+        | none => (st, "bad-op")
       | _, _ => (st, "bad-op")
-    | _, _, _, _, _ => (st, "bad-op")
+    | _, _, _, _ => (st, "bad-op")
   | "strip" :: rest =>
     match parseMetaWords st.w rest with
     | some md => (st, showSeen (stripFramework md))
